@@ -14,6 +14,8 @@ CFG = dict(
     level_note="Trusted: Coq kernel + vm_compute, no axioms; harness; Go toolchain as the reference. No translator: the mechanism is a loop, not a table; it is modelled by hand and tied by correspondence (600 programs per quick run, 20000 per thorough run, the first 13 of every run being the theorem witnesses).",
     technique="Coq proof by induction over declaration lists, scans and fuel + model/implementation correspondence evaluated in Coq",
     assumptions=["identifiers are unique within a package (yaegi and Go both reject redeclarations)",
+                 "the syntactic form of an initialiser around its logging call (composite literals, pointer, parentheses, binary expression, conversion, call of a function literal) and the variable's type are rendering dimensions only: compared behaviourally, absent from the models",
+                 "the history of the interpreter before the program is evaluated (fresh, after a successful / cancelled / non-compiling / panicking evaluation) is compared behaviourally: the program must print the same marks as on a fresh interpreter; the models have no notion of history",
                  "a blank variable is modelled as a variable with a fresh identifier that nothing refers to; the identifier '_' that its declaration mentions is modelled as a misleading occurrence (RX) of the variable owning yaegi's single symbol '_' (the last 'var ..., _, ... = e' declaration, none when the last declaration with a blank is 'var _, x = f()'): that rule is computed by the harness and validated behaviourally (Y must predict yaegi on every case), it is not derived in Coq",
                  "explicit types in declarations (var x int = e) are a rendering dimension only: compared behaviourally, absent from the models",
                  "constants, cross-package variable references and interface method calls carry no initialisation dependency in either model; the generator does not produce constants",
